@@ -98,8 +98,9 @@ def check_parallel_map(A, R: Report, f):
     scope = [f] + list(f.nested.values())
     uses_completion = any(isinstance(n, ast.Call) and src(n.func).endswith('as_completed') for g in scope for n in A.typer.own_nodes(g))
     # --- roles: the coroutine that submits and collects, the worker handed to the executor
-    frun = next((g for g in f.nested.values() if any(isinstance(n, ast.Call) and src(n.func).endswith('run_in_executor') for n in A.typer.own_nodes(g))), None)
-    subs = [n for n in A.typer.own_nodes(frun) if isinstance(n, ast.Call) and src(n.func).endswith('run_in_executor')] if frun is not None else []
+    frun = next((g for g in f.nested.values() if any(isinstance(n, ast.Call) and src(n.func).endswith('as_completed') for n in A.typer.own_nodes(g))), None) or \
+        next((g for g in f.nested.values() if any(isinstance(n, ast.Call) and src(n.func).endswith('run_in_executor') for n in A.typer.own_nodes(g))), None)
+    subs = [n for g in f.nested.values() for n in A.typer.own_nodes(g) if isinstance(n, ast.Call) and src(n.func).endswith('run_in_executor')]
     ffun = None
     for c in subs:
         if len(c.args) >= 2 and isinstance(c.args[1], ast.Name) and c.args[1].id in f.nested:
